@@ -409,7 +409,7 @@ func tPrecompile(r *fw.Rand, e *epoch, k int) *spec {
 	// which precompile is forced by the rotation (9 = the first address that is none)
 	n := []int{1, 2, 3, 4, 1, 2, 3, 4, 9, 5}[k%10]
 	if e.byz {
-		n = []int{5, 6, 7, 8, 1, 2, 3, 4, 5, 6, 7, 8, 9}[k%13]
+		n = []int{5, 6, 7, 8, 1, 5, 6, 7, 8, 2, 5, 6, 7, 8, 3, 4, 9}[k%17]
 	}
 	in := precompileInput(r, n)
 	sp := &spec{Input: hx(in), Value: topValue(r)}
